@@ -112,7 +112,8 @@ Print Assumptions C14_extra_route_inherits_route.
    faithful model (known finding C14-K1: mergo replaces the default block's *OptionsConfig
    pointer by the cluster block's, wholesale) ...
 
-   Theorem C14_cluster_field_by_field : forall A emp (f : opts -> A), is_field emp f -> forall d c,
+   [full statement, NOT provable:]  C14_cluster_field_by_field :
+     forall A emp (f : opts -> A), is_field emp f -> forall d c,
      inherits emp (ofield f (rc_options c)) (ofield f (rc_options d))
               (ofield f (rc_options (merge_route true d c))).                                  *)
 Theorem C14_cluster_field_by_field_refuted :
